@@ -28,7 +28,11 @@ ASSUMPTIONS = [
     'field cells finite, |x| <= 1024; largest neighbour difference within '
     'the stated exponent band',
     'whole-file ARL reading/writing (np.memmap + np.char on structured '
-    'dtypes), level/variable lists and times are outside',
+    'dtypes) and level/variable lists are outside the symbolic claim; the '
+    'reader\'s time axis is claimed on a slice (hours since the first record '
+    'for symbolic offsets); a reference file written from the format '
+    'description (checks/arlfile.py) is read back in the replay oracle '
+    '(fields within one step, variable and level lists, times)',
 ]
 
 QUICK_NOTE = ('quick tier: shape (1,2) only, without the per-cell error '
@@ -38,14 +42,20 @@ MANIFEST = {
     'category': 'model_checking',
     'technique': 'symbolic execution of the real pack2d/unpack source on z3 '
                  'Float32 cells and 32-bit bit-vector bytes (QF_BVFP), one '
-                 'path per scaling exponent; replay on the real functions',
+                 'path per scaling exponent; AST slice of the file reader\'s '
+                 'time axis on symbolic instants; replay on the real '
+                 'functions and on a reference ARL file',
     'text': 'Bounded bit-precise checking: for field shapes (1,2), (1,3), '
             '(2,2) quick and exponent band [-3,3] quick, over ALL finite '
             'float32 cells, every packed value lies in 0..255 (no byte '
             'wrap), unpack(pack(x))[0,0] == x[0,0] and the checksum equals '
             'the byte sum modulo 255 (quick and thorough); every cell is '
             'reconstructed within 2**(NEXP-7) (thorough tier only: 2-3 '
-            'solver minutes per path and cell).',
+            'solver minutes per path and cell). The file reader\'s time '
+            'axis (AST slice of arlpackedbit.__init__) gives the hours since '
+            'the first record for ALL offsets 0 <= k1 <= k2 <= 17000 h; '
+            'replay reads a reference file laid out from the format '
+            'description.',
     'note': 'Trusted: z3 FP/BV theories, the SymLog stub (log2 near powers '
             'of two tabulated from the real numpy). Timeouts are reported '
             'as inconclusive.',
@@ -240,8 +250,181 @@ class Pack(Obligation):
                 'field': x.tolist()}
 
 
+# ---------------------------------------------------------------------------
+# the reader's time axis: hours since the first record
+# ---------------------------------------------------------------------------
+class ArlTimeAxis(Obligation):
+    """arlpackedbit.__init__: the statements from the decoding of the record
+    time stamps to the assignment of the `time` variable (AST slice) run on
+    symbolic instants first + k hours"""
+    encoding_fragile = True
+    mode = 'int'
+    validate_paths = 3
+    name = 'reader-time-axis[3 times, k hours apart]'
+    bounds = {'times': 3, 'hours after the first record': '0 <= k1 <= k2 '
+              '<= 17000 (two-digit years: within 1995-1997)'}
+    stubs = ('datetime.strptime of a record stamp returns the symbolic '
+             'instant of that record (symdatetime)',
+             'createVariable returns a recorder for the assigned values')
+
+    def fallback_inputs(self):
+        return [{'k1': 6, 'k2': 12}, {'k1': 24, 'k2': 75},
+                {'k1': 1, 'k2': 16999}]
+
+    def _prep(self):
+        import ast
+        import copy
+        import hashlib
+        from verifx import symdatetime as sd
+        sp = loader.TwinSpace(stubs={'datetime': sd.make_module()})
+        M = sp.twin('PseudoNetCDF.noaafiles._arl')
+        node, path = loader.get_function_ast('PseudoNetCDF.noaafiles._arl',
+                                             'arlpackedbit.__init__')
+        body = node.body
+        start = [i for i, st in enumerate(body) if isinstance(st, ast.Assign)
+                 and 'strptime' in ast.unparse(st.value)]
+        if not start:
+            raise loader.HarnessError('arlpackedbit.__init__: time stamp '
+                                      'decoding not found')
+        end = None
+        tvar = None
+        for i in range(start[0], len(body)):
+            st = body[i]
+            if isinstance(st, ast.Assign) and isinstance(
+                    st.value, ast.Call) and 'createVariable' in ast.unparse(
+                    st.value.func) and st.value.args and isinstance(
+                    st.value.args[0], ast.Constant) and \
+                    st.value.args[0].value == 'time':
+                tvar = st.targets[0].id
+            if tvar and isinstance(st, ast.Assign) and isinstance(
+                    st.targets[0], ast.Subscript) and isinstance(
+                    st.targets[0].value, ast.Name) and \
+                    st.targets[0].value.id == tvar:
+                end = i
+                break
+        if end is None:
+            raise loader.HarnessError('arlpackedbit.__init__: assignment of '
+                                      'the time variable not found')
+        # the units statement that follows names the reference instant
+        stm = body[start[0]:end + 1]
+        for st in body[end + 1:end + 3]:
+            if isinstance(st, ast.Assign) and isinstance(
+                    st.targets[0], ast.Attribute) and \
+                    st.targets[0].attr == 'units' and isinstance(
+                    st.targets[0].value, ast.Name) and \
+                    st.targets[0].value.id == tvar:
+                stm.append(st)
+        mod = ast.Module(body=[loader._Rewrite().visit(copy.deepcopy(x))
+                               for x in stm], type_ignores=[])
+        ast.fix_missing_locations(mod)
+        src = [ast.unparse(x) for x in stm]
+        self._info = {'file': 'src/PseudoNetCDF/noaafiles/_arl.py',
+                      'qualname': 'arlpackedbit.__init__ (time axis)',
+                      'statements': src,
+                      'sha256': hashlib.sha256('\n'.join(src).encode())
+                      .hexdigest()[:16]}
+        return sp, M, compile(mod, path + ':<timeaxis>', 'exec'), tvar, sd
+
+    def sym(self, ctx, h):
+        sp, M, code, tvar, sd = self._prep()
+        self._space = sp
+        k1 = ctx.int('k1', 0, 17000)
+        k2 = ctx.int('k2', 0, 17000)
+        ctx.assume(k1.e <= k2.e, check=False)
+        sd.YEAR_RANGE = (1995, 1997)
+        sd.FORK_YEARS = True
+        first = sd.datetime(1995, 10, 16, 0)
+        inst = [first, first + sd.timedelta(hours=k1),
+                first + sd.timedelta(hours=k2)]
+
+        class Tok(object):
+            def __init__(self, i):
+                self.i = i
+
+            def astype(self, *a):
+                return self
+
+            def decode(self, *a):
+                return self
+
+            def view(self, *a):
+                return self
+
+            def tobytes(self):
+                return self
+
+        class DT(object):
+            @staticmethod
+            def strptime(text, fmt):
+                if not isinstance(text, Tok):
+                    raise loader.HarnessError('time stamp text')
+                return inst[text.i]
+
+        class Rec(object):
+            def __init__(self):
+                self.__dict__['vals'] = None
+
+            def __setitem__(self, k, v):
+                self.__dict__['vals'] = v
+
+        rec = Rec()
+        me = type('S', (), {})()
+        me.createVariable = lambda *a, **k: rec
+        env = dict(M.__dict__)
+        env['__builtins__'] = sp.builtins
+        env.update(self=me, datetime=DT, tflag=[Tok(0), Tok(1), Tok(2)])
+        try:
+            exec(code, env)
+        except loader.HarnessError:
+            raise
+        except NotImplementedError as ex:
+            # e.g. strftime('%F') on a symbolic instant: only the values
+            if rec.vals is None:
+                raise loader.HarnessError('time axis: %r' % (ex,))
+        except Exception as ex:
+            raise loader.HarnessError('time axis: %r' % (ex,))
+        vals = list(rec.vals)
+        h.claim('count', z3.BoolVal(len(vals) == 3))
+        if len(vals) == 3:
+            h.claim('hours[0]', common.eq_expr(vals[0], 0))
+            h.claim('hours[1]', common.eq_expr(vals[1], k1))
+            h.claim('hours[2]', common.eq_expr(vals[2], k2))
+        h.observe('ok', True)
+
+    def real(self, inputs):
+        import os
+        import shutil
+        import tempfile
+        import warnings
+        from verifx.symx import frac_of
+        from . import arlfile
+        k1 = max(0, min(int(frac_of(inputs.get('k1', 6))), 17000))
+        k2 = max(k1, min(int(frac_of(inputs.get('k2', 12))), 17000))
+        hours = [0]
+        for k in (k1, k2):
+            # equal stamps would be one time step: keep the records distinct
+            hours.append(k if k > hours[-1] else hours[-1] + 1)
+        tmp = tempfile.mkdtemp(prefix='verif_c20_')
+        viol = {}
+        try:
+            with warnings.catch_warnings():
+                warnings.simplefilter('ignore')
+                try:
+                    pr = arlfile.read_back_problems(
+                        os.path.join(tmp, 'ARL.BIN'), hours)
+                except Exception as ex:
+                    pr = {'reader-raised': repr(ex)[:200]}
+            for k, v in pr.items():
+                viol['hours[*]' if k == 'times' else k] = v
+        finally:
+            shutil.rmtree(tmp, ignore_errors=True)
+        return {'obs': {'ok': True}, 'violations': viol, 'hours': hours}
+
+    any_violation_confirms = True
+
+
 def obligations(tier):
-    obs = []
+    obs = [ArlTimeAxis()]
     if tier == 'quick':
         # byte range / checksum / first element / precision for all shapes;
         # the per-cell error bound costs 2-3 solver minutes per path and
